@@ -14,7 +14,7 @@ RULE = (
     "kernel: chi(7 letters incl. 0 and 0.999) x n_grains {1,2,3,5,8} x volume vectors (none / one / "
     "many / all below the threshold; entries exactly at, one ulp below and one ulp above chi/n; "
     "zeros; un-normalised; duplicates) x orientation-set pairs, full product, against a plain "
-    "numpy restatement; histories: BFS to depth 2 (3 thorough) over the 12 update letters + "
+    "numpy restatement; histories: BFS to depth 2 (3 thorough) over the 12 update letters, a zero and a rigid-rotation gradient + "
     "partition letters from roots fabric(6) x regime(2) x strongly non-uniform volumes x M* in "
     "{125, 200} x chi letters x n_grains, with a recording wrapper on apply_gbs: every call got "
     "the start-of-update snapshot as reference, masked grains end the update with exactly their "
@@ -35,7 +35,7 @@ VOLK = ["uniform", "dominant", "geometric", "onezero", "allbutone", "dup", "at_t
 
 
 def ALPHABETS():
-    return {"chi": len(CHIS), "n": len(NS), "volume_vectors": len(VOLK), "update_letters": len(H.STEP_LETTERS)}
+    return {"chi": len(CHIS), "n": len(NS), "volume_vectors": len(VOLK), "update_letters": len(H.STEP_LETTERS) + len(NULL_LETTERS)}
 
 
 def warmup():
@@ -78,6 +78,11 @@ def kvol(name, n, chi):
     if name == "unnormalised":
         return 3.7 * alph.volumes("geometric", n)
     return alph.volumes(name, n)
+
+
+# stagnant and rigidly rotating material: the sliding rule still applies after the update
+# (grains already below the threshold are floored and held): seed C09g
+NULL_LETTERS = [("zero", 0.3), ("rigid", 0.3)]
 
 
 def gen_cases(tier, seed):
@@ -277,7 +282,7 @@ def run_hist(key):
         return child
 
     if key["part"] == "hist":
-        ns, nt = H.bfs(root, H.STEP_LETTERS, key["depth"], step)
+        ns, nt = H.bfs(root, H.STEP_LETTERS + NULL_LETTERS, key["depth"], step)
     else:
         nt = 0
         try:
